@@ -245,4 +245,9 @@ theorem C12_failed_commit_invisible_after_reopen (opt0 : Opts) (ops : List OpA) 
   rw [← hsf] at h1 h2 h3 h4
   exact ⟨by rw [hcommit], h1, h2, congrArg SV.lists h3, congrArg SV.sets h3, congrArg SV.zsets h3, h4⟩
 
+/-- **regenerated tie.** On this run, every call of the transactional API: what it checks before queuing and what it queues — nothing else is done before `Commit` are the source lines `Nuts.Model.Tx` was written from
+(`NutsProofs.Facts.expectedTxApiStmts`). -/
+theorem C12_tx_api_regenerated : NutsGen.F.txApiStmts = NutsProofs.Facts.expectedTxApiStmts :=
+  NutsProofs.Facts.tx_api_ok
+
 end NutsProofs.C12
